@@ -594,7 +594,8 @@ Definition offset_set : prog :=
 Definition ticklabel_entries : list entry :=
   numfmt_entries "TickLabels" false ++
   [ mk "TickLabels" "offset" "catAx" (child_gexp post_id [] (pth "c:lblOffset") (Ok (PInt 100)) A_CT_LblOffset__val) offset_set;
-    mk "TickLabels" "offset" "valAx" (child_gexp post_id [] (pth "c:lblOffset") (Ok (PInt 100)) A_CT_LblOffset__val) (Raise ValueErr) ].
+    (* c:valAx declares no c:lblOffset child: reading raises AttributeError, assigning ValueError *)
+    mk "TickLabels" "offset" "valAx" (GConst no_attr) (Raise ValueErr) ].
 
 Definition right_pos : pyval := member E_XL_LEGEND_POSITION "r".
 Definition legend_entries : list entry :=
